@@ -9,6 +9,7 @@
 use vstd::prelude::*;
 use std::ops::Range;
 verus! {
+//@prelude std_combinators
 
 // ---- opaque foreign types (font data accessors; they never receive the painter) ----
 #[verifier::external_body] pub struct Paint<'a> { _p: &'a u8 }
